@@ -70,7 +70,7 @@ def generate(outdir, tier):
     t = open(os.path.join(os.path.dirname(os.path.dirname(os.path.abspath(__file__))), 'C01', 'radiotap_parser.tmpl')).read()
     a = t.index('void h(void) {')
     body = t[:a]
-    body = body.replace('#! property: C01', '#! property: C11').replace('#! replay: c01_radiotap', '#! replay: c11_radiotap')
+    body = body.replace('#! property: C01', '#! property: C11').replace('#! replay: c01_parse', '#! replay: c11_radiotap')
     body = re.sub(r'#! anchors: ', '#! anchors: RadioTap::RadioTap(const uint8_t*, uint32_t) (src/radiotap.cpp), ', body, 1)
     body = body.replace("mutant: current_ptr_ \\+ size > end_ ==> current_ptr_ + size > end_ + 1\n", '')
     paths = []
